@@ -73,7 +73,8 @@ def _rand_op(rnd, curves, i, dim):
     if kind in ("clean", "kclean", "dclean"):
         return {"op": kind}
     return {"op": "pure", "what": rnd.choice(["eval", "add", "muls", "eq", "split", "fraction", "copymut", "derivate",
-                                               "integrate", "fit", "sub", "neg"]), "j": rnd.randrange(len(curves))}
+                                               "integrate", "fit", "sub", "neg", "splitmut", "splitmut", "project", "intersect"]),
+            "j": rnd.randrange(len(curves))}
 
 
 def _apply(rnd, curves, i, op, dim):
@@ -132,6 +133,20 @@ def _apply(rnd, curves, i, op, dim):
             c == other, c != other, c == 3
         elif w == "split":
             c.split(), c.split([mid])
+        elif w == "splitmut":
+            # the pieces are new curves: changing them must not reach the curve they were cut from
+            for piece in list(c.split()) + list(c.split([U[0], U[-1]])) + list(c.split([])):
+                piece.knot_insert([(piece.knotvector[0] + piece.knotvector[-1]) / 2])
+                piece.ctrlpoints = [3 * pt for pt in piece.ctrlpoints]
+                piece.clean()
+        elif w == "project":
+            if dim == 2:
+                from compmec.nurbs.advanced import Projection
+                Projection.point_on_curve(np.array([0.25, -1.5]), c)
+        elif w == "intersect":
+            if dim == 2:
+                from compmec.nurbs.advanced import Intersection
+                Intersection.curve_and_curve(c, other)
         elif w == "fraction":
             c.fraction()
         elif w == "copymut":
